@@ -485,7 +485,7 @@ func init() {
 		},
 	}
 	properties["C19"] = &property{
-		explanation: "Decides the termination-protocol clause of C19 ('Minimize terminates for every method ... and concurrency level') on the method side, for all 9 optimize Method.Run implementations through their helpers (localOptimizer.run/finish/finishMethodDone, summaries computed, not listed): GOPROTO.run — on every path to a normal exit the result channel is ranged to closure before close(operation) (the documented obligation 'closing of results happens before the closing of operations'), operation is closed on every path and never twice; GOPROTO.wg/.close/.capture on optimize.minimize's own goroutines. A new early return that skips the drain is the realistic way to hang Minimize and is invisible to tests that never take that path. INIT.state — in the 33 Init/InitDirection/initLocal methods of optimize, a receiver field assigned on some path is assigned on every returning path (lazy allocation under a test of the field itself excepted): no best value, counter or status of a previous Minimize run survives into the next ('the reported F is the objective value at the reported X'). Does NOT decide counters, status coherence, convergence, line-search conditions or the simplex solver.",
+		explanation: "Decides the termination-protocol clause of C19 ('Minimize terminates for every method ... and concurrency level') on the method side, for all 9 optimize Method.Run implementations through their helpers (localOptimizer.run/finish/finishMethodDone, summaries computed, not listed): GOPROTO.run — on every path to a normal exit the result channel is ranged to closure before close(operation) (the documented obligation 'closing of results happens before the closing of operations'), operation is closed on every path and never twice; GOPROTO.wg/.close/.capture on optimize.minimize's own goroutines. A new early return that skips the drain is the realistic way to hang Minimize and is invisible to tests that never take that path. INIT.state — in the 33 Init/InitDirection/initLocal methods of optimize, a receiver field assigned on some path is assigned on every returning path (lazy allocation under a test of the field itself excepted): no best value, counter or status of a previous Minimize run survives into the next ('the reported F is the objective value at the reported X'). OPT.limits — every comparison between a counter of optimize.Stats and a limit of optimize.Settings uses the same field name on both sides ('respect the configured limits … the status names the condition that stopped the run'). Does NOT decide counters, status coherence, convergence, line-search conditions or the simplex solver.",
 		assumptions: commonAssumptions,
 		run: func(tier string, res *core.Result) {
 			r := goproto.RunProtocol(def)
@@ -494,6 +494,9 @@ func init() {
 			g := goproto.Run(def, core.Pkgs("./optimize"))
 			g.Floor("go_statements", 3)
 			res.Merge(g)
+			lm := initx.RunLimits(def)
+			lm.Floor("stats_settings_comparisons", 4)
+			res.Merge(lm)
 			in := initx.Run(def, "./optimize/...")
 			in.Floor("init_methods", 30)
 			in.Floor("state_fields", 120)
